@@ -1251,7 +1251,7 @@ function resolve_join_variables(input_variables_map, join_variables_map, variabl
 function generate_common_init_code(query_text, variable_prefix) {
     assert(variable_prefix == 'a' || variable_prefix == 'b');
     let result = [];
-    result.push(`${variable_prefix} = new Object();`);
+    result.push(`${variable_prefix} = Object.create(null);`); // No prototype: a column can be named "__proto__" or "constructor"
     let base_var = variable_prefix == 'a' ? 'NR' : 'bNR';
     let attr_var = `${variable_prefix}.NR`;
     if (query_text.indexOf(attr_var) != -1)
